@@ -655,6 +655,7 @@ def run_check(prop, tier, seed, replay=None):
     for line in known_lines:
         print(line)
     seen = set()
+    violations.sort(key=lambda v: 1 if v[1] else 0)     # concrete failing inputs first
     for path, suffix in violations:
         if str(path) in seen:
             continue
